@@ -70,15 +70,32 @@ Fixpoint smono (T : Z) (ops : list sop) : Prop :=
   match ops with
   | [] => True
   | SReq _ _ _ t _ _ _ :: r => T <= t /\ smono t r
+  | SOpen _ _ _ t :: r => T <= t /\ smono t r
+  | SLate _ t _ _ _ :: r => T <= t /\ smono t r
   | STimeout t :: r => T <= t /\ smono t r
   | _ :: r => smono T r
   end.
 
 Definition next_T (T : Z) (o : sop) : Z :=
-  match o with SReq _ _ _ t _ _ _ => t | STimeout t => t | _ => T end.
+  match o with
+  | SReq _ _ _ t _ _ _ => t | SOpen _ _ _ t => t | SLate _ t _ _ _ => t | STimeout t => t
+  | _ => T
+  end.
 
 Definition op_time_ok (T : Z) (o : sop) : Prop :=
-  match o with SReq _ _ _ t _ _ _ => T <= t | STimeout t => T <= t | _ => True end.
+  match o with
+  | SReq _ _ _ t _ _ _ => T <= t | SOpen _ _ _ t => T <= t | SLate _ t _ _ _ => T <= t
+  | STimeout t => T <= t
+  | _ => True
+  end.
+
+Lemma exists_pair : forall sid ws,
+  existsb (fun e : Z * Z => fst e =? sid) (map pair_of ws) =
+  match find_w sid ws with Some _ => true | None => false end.
+Proof.
+  induction ws as [|w r IH]; [reflexivity|]. cbn [map existsb find_w pair_of fst].
+  destruct (w_sid w =? sid); [reflexivity|exact IH].
+Qed.
 
 (* all open requests are completed by a timeout *)
 Lemma timeout_rates : forall ws r l, NoDup (map w_sid ws) -> rl_closed l = false ->
@@ -180,7 +197,7 @@ Lemma rate_step_ok : forall c s m o s' evs, srate s m -> op_wf o ->
 Proof.
   intros c s [r fl] o s' evs [C Hopen Hfl Hlist Hnd Hnn] Hwf Htime H.
   cbn [sm_r sm_fl] in *. subst fl.
-  destruct o as [sid p obs t good addrs n|sid msg|sid|t]; cbn [s_step] in H; cbn [op_time_ok next_T] in *.
+  destruct o as [sid p obs t good addrs n|sid p obs t|sid t good addrs n|sid msg|sid|t]; cbn [s_step] in H; cbn [op_time_ok next_T] in *.
   - (* a new request *)
     cbn [op_wf] in Hwf. unfold minHandshakeSizeBytes, maxHandshakeSizeBytes in Hwf.
     destruct (find_w sid (s_wait s)) as [w|] eqn:Ef.
@@ -252,6 +269,88 @@ Proof.
       apply (Hfin l1); auto; try discriminate.
       * cbn [existsb is_reject]. unfold ST_OK, ST_REJECTED. rewrite Z.eqb_refl. reflexivity.
       * cbn [smon_ends fold_left ends]. apply fl_remove_new, Ef.
+  - (* a stream that does not send its request yet *)
+    open_step. rewrite exists_pair.
+    destruct (find_w sid (s_wait s)) as [w|] eqn:Ef.
+    { inversion H; subst s' evs. cbn [orb]. eexists. split; [reflexivity|]. split; [|reflexivity].
+      constructor; cbn [s_rl s_wait sm_r sm_fl rm_acc rm_dd rm_last rm_fl]; auto.
+      apply (coupled_later _ _ _ _ _ C Htime). }
+    destruct (rl_accept c (s_rl s) p t) as [l1 ok] eqn:Ea.
+    destruct ok; cbn [negb] in H.
+    2:{ inversion H; subst s' evs. destruct (accept_false _ _ _ _ _ _ _ _ C Htime Hopen Ea) as [C1 [Hc1 Hi1]].
+        cbn [existsb is_reject]. unfold ST_REJECTED. rewrite !Z.eqb_refl. cbn [andb orb].
+        eexists. split; [reflexivity|]. split; [|reflexivity].
+        apply (post_reject (s_rl s)); auto. intro q. rewrite Hi1. reflexivity. }
+    destruct (accept_true _ _ _ _ _ _ _ _ _ C Htime Hopen Ea (Hfl p)) as [A1 [A2 [A3 [C1 [C1' [Hc1 Hi1]]]]]].
+    inversion H; subst s' evs; clear H. cbn [existsb orb].
+    rewrite (accept_ok_zero c r p t A1 A2 A3). cbn [Z.eqb negb]. unfold smon_ends. cbn [fold_left].
+    eexists. split; [reflexivity|]. split; [|reflexivity].
+    constructor; cbn [s_rl s_wait sm_r sm_fl rm_acc rm_dd rm_last rm_fl]; auto.
+    + intro q. rewrite Hi1. unfold upd. destruct (q =? p); [rewrite Hfl; reflexivity|apply Hfl].
+    + rewrite map_app. reflexivity.
+    + rewrite map_app. cbn [map w_sid]. apply nodup_snoc; [exact Hnd|apply find_w_none, Ef].
+    + intro q. rewrite Hi1. unfold upd. destruct (q =? p); [pose proof (Hnn p); lia|apply Hnn].
+  - (* the late request of such a stream *)
+    cbn [op_wf] in Hwf. unfold minHandshakeSizeBytes, maxHandshakeSizeBytes in Hwf.
+    pose proof (coupled_later _ _ _ _ _ C Htime) as Ct.
+    assert (Hkeep : exists m', smon_step c (mkSmon r (map pair_of (s_wait s))) (SLate sid t good addrs n) [] = inl m' /\
+                      srate s m' /\ rm_last (sm_r m') = t).
+    { open_step. cbn [existsb]. unfold smon_ends. cbn [fold_left].
+      eexists. split; [reflexivity|]. split; [|reflexivity].
+      constructor; cbn [s_rl s_wait sm_r sm_fl rm_acc rm_dd rm_last rm_fl]; auto. }
+    destruct (find_w sid (s_wait s)) as [w|] eqn:Ef.
+    2:{ inversion H; subst s' evs. exact Hkeep. }
+    destruct (w_req w) eqn:Ereq; cbn [negb] in H.
+    2:{ inversion H; subst s' evs. exact Hkeep. }
+    clear Hkeep. cbv zeta in H.
+    (* the request ends within this step, with events that contain no DialDataRequest *)
+    assert (Hfin : forall l' evs0, coupled l' (rm_acc r) (rm_dd r) t -> rl_closed l' = false ->
+               (forall q, rl_inprog l' q = rl_inprog (s_rl s) q) ->
+               existsb (is_ask sid) evs0 = false ->
+               smon_ends (mkSmon (mkRmon (rm_acc r) (rm_dd r) (rm_fl r) t) (map pair_of (s_wait s))) evs0 =
+               mkSmon (dec (mkRmon (rm_acc r) (rm_dd r) (rm_fl r) t) (w_peer w)) (map pair_of (remove_w sid (s_wait s))) ->
+               exists m', smon_step c (mkSmon r (map pair_of (s_wait s))) (SLate sid t good addrs n) evs0 = inl m' /\
+                          srate (mkS (rl_complete l' (w_peer w)) (remove_w sid (s_wait s))) m' /\ rm_last (sm_r m') = t).
+    { intros l' evs0 Cl Hcl Hil Hask Hends. open_step. rewrite Hask, Hends.
+      eexists. split; [reflexivity|]. split; [|reflexivity].
+      constructor; cbn [s_rl s_wait sm_r sm_fl dec rm_acc rm_dd rm_last rm_fl].
+      - apply coupled_complete, Cl.
+      - rewrite complete_closed. exact Hcl.
+      - intro q. rewrite complete_inprog by exact Hcl. unfold upd. rewrite !Hil.
+        destruct (q =? w_peer w); [rewrite Hfl; reflexivity|apply Hfl].
+      - reflexivity.
+      - apply nodup_filter_sids, Hnd.
+      - apply nn_complete; [exact Hcl|]. intro q. rewrite Hil. apply Hnn. }
+    assert (Hone : forall e, ends e = Some sid ->
+              smon_ends (mkSmon (mkRmon (rm_acc r) (rm_dd r) (rm_fl r) t) (map pair_of (s_wait s))) [e] =
+              mkSmon (dec (mkRmon (rm_acc r) (rm_dd r) (rm_fl r) t) (w_peer w)) (map pair_of (remove_w sid (s_wait s)))).
+    { intros e He. unfold smon_ends. cbn [fold_left]. rewrite He, fl_remove_wait, Ef. reflexivity. }
+    destruct good; cbn [negb] in H.
+    2:{ inversion H; subst s' evs. apply (Hfin (s_rl s)); auto. }
+    destruct (select_addr addrs) as [[idx a]|] eqn:Es.
+    2:{ inversion H; subst s' evs. apply (Hfin (s_rl s)); auto. }
+    destruct (need_data (w_obs w) a) eqn:End.
+    + destruct (rl_accept_dd c (s_rl s) t) as [l2 ok2] eqn:Ead.
+      destruct ok2; cbn [negb] in H.
+      2:{ inversion H; subst s' evs.
+          destruct (accept_dd_false _ _ _ _ _ _ _ C Htime Hopen Ead) as [C2 [Hc2 Hi2]].
+          apply (Hfin l2); auto. intro q. rewrite Hi2. reflexivity. }
+      destruct (n <=? 0) eqn:En; [apply Z.leb_le in En; lia|].
+      inversion H; subst s' evs; clear H.
+      destruct (accept_dd_true _ _ _ _ _ _ _ C Htime Hopen Ead) as [D1 [C2 [Hc2 Hi2]]].
+      open_step. cbn [existsb is_ask]. rewrite Z.eqb_refl. cbn [orb].
+      replace (count_if (fresh t) (rm_dd r) + 1 <=? DialDataRPM c) with true by (symmetry; apply Z.leb_le; lia).
+      unfold smon_ends. cbn [fold_left ends].
+      eexists. split; [reflexivity|]. split; [|reflexivity].
+      constructor; cbn [s_rl s_wait sm_r sm_fl rm_acc rm_dd rm_last rm_fl]; auto.
+      * intro q. rewrite Hi2. apply Hfl.
+      * rewrite map_map. apply map_ext. intro x. unfold pair_of. destruct (w_sid x =? sid); reflexivity.
+      * rewrite map_map. replace (map _ (s_wait s)) with (map w_sid (s_wait s)); [exact Hnd|].
+        apply map_ext. intro x. destruct (w_sid x =? sid); reflexivity.
+      * intro q. rewrite Hi2. apply Hnn.
+    + unfold finish_dial in H. inversion H; subst s' evs; clear H.
+      apply (Hfin (s_rl s)); auto.
+      unfold smon_ends. cbn [fold_left ends]. rewrite fl_remove_wait, Ef. reflexivity.
   - (* a dial-data message *)
     cbn [smon_step]. unfold smon_ends.
     assert (Hkeep : srate s (mkSmon r (map pair_of (s_wait s)))) by (constructor; auto).
@@ -270,6 +369,8 @@ Proof.
                        [EReset sid] (mkSmon r (map pair_of (s_wait s))) =
                      mkSmon (dec r (w_peer w)) (map pair_of (remove_w sid (s_wait s)))).
     { cbn [fold_left ends]. rewrite fl_remove_wait, Ef. reflexivity. }
+    destruct (w_req w) eqn:Ereq.
+    { inversion H; subst s' evs. rewrite Hreset. eexists. split; [reflexivity|]. split; [exact Hend|reflexivity]. }
     destruct msg as [L D|].
     2:{ inversion H; subst s' evs. rewrite Hreset. eexists. split; [reflexivity|]. split; [exact Hend|reflexivity]. }
     destruct (dd_step (w_remain w) L) as [| |r'|] eqn:Ed.
